@@ -234,3 +234,20 @@ Theorem C15_source_from_array :
   bounds_of "From<GenericArray<T,N>> for Box<[T]>" = Some ["N:ArrayLength"] /\
   bounds_of "From<GenericArray<T,N>> for Vec<T>" = Some ["N:ArrayLength"].
 Proof. repeat split. Qed.
+
+(* ---- T1: the signatures of this property's inherent methods / free functions as they stand in the source now
+        (coq/gen/GenSigs.v gen_fn_sigs): visibility, const / unsafe, generics, parameters, result, where-clause --
+        the Box / Vec / Box<[T]> interop functions ---- *)
+From Coq Require Import String.
+From GA Require Import SigDefs.
+From GAGen Require Import GenSigs.
+Local Open Scope string_scope.
+
+Theorem C15_source_signatures :
+  sig_of "GenericArray<T,N> where N:ArrayLength" "into_boxed_slice" = Some "pub fn into_boxed_slice (self : Box < GenericArray < T , N > >) -> Box < [T] >" /\
+  sig_of "GenericArray<T,N> where N:ArrayLength" "into_vec" = Some "pub fn into_vec (self : Box < GenericArray < T , N > >) -> Vec < T >" /\
+  sig_of "GenericArray<T,N> where N:ArrayLength" "try_from_boxed_slice" = Some "pub fn try_from_boxed_slice (slice : Box < [T] >) -> Result < Box < GenericArray < T , N > > , LengthError >" /\
+  sig_of "GenericArray<T,N> where N:ArrayLength" "try_from_vec" = Some "pub fn try_from_vec (vec : Vec < T >) -> Result < Box < GenericArray < T , N > > , LengthError >" /\
+  sig_of "GenericArray<T,N> where N:ArrayLength" "default_boxed" = Some "pub fn default_boxed () -> Box < GenericArray < T , N > > where T : Default ," /\
+  sig_of "GenericArray<T,N> where N:ArrayLength" "try_boxed_from_iter" = Some "pub fn try_boxed_from_iter < I > (iter : I) -> Result < Box < GenericArray < T , N > > , LengthError > where I : IntoIterator < Item = T > ,".
+Proof. repeat split. Qed.
